@@ -32,6 +32,7 @@ EXPLANATION = (
     "NOT decided: the biconditional accept(S,D) <=> D |= S "
     "itself - pandas semantics on data (NaN in duplicated, dtype equality, regex expansion on real labels)."
     ' R6 evaluates option guards through local definitions (a local that names the option test).'
+    ' (R14) the per-component override `<component>.dtype = schema.dtype` of the pandas container backend is conditional on the component not being the index (premise: collect_schema_components appends schema.index to the list).'
 )
 LEVEL_RULE = "one obligation per pipeline / (attribute, function) / (check, option row) / write site"
 FLOORS = {"R1": 12, "R2": 25, "R3": 20, "R4": 5, "R5": 2, "R6": 10, "R7": 6, "R8": 12, "R9": 3, "R10": 1, "R11": 3, "R12": 6}
@@ -195,6 +196,44 @@ def r4_duplicates(ctx):
                                         and txt(v.args[0]).endswith(".report_duplicates") for v in srcs)
                 detail = "keep=convert_uniquesettings(schema.report_duplicates)" if ok else f"keep={txt(k)} does not derive from schema.report_duplicates"
             ctx.ob("R4", f, f"`{txt(c)[:50]}` keep policy", ok, detail, f.loc(c))
+
+
+def r14_frame_dtype_overrides_columns_only(ctx):
+    """`DataFrameSchema(dtype=T)` "overrides the data types specified in any of the columns"; the index component declares
+    its own dtype.  The per-component override in the pandas container backend runs over a list that ends with
+    `schema.index`: unguarded, the frame dtype replaces the index's dtype too - Index(str) next to dtype=int rejects a
+    string index and accepts an integer one.  Decided: the store `<component>.dtype = schema.dtype` is conditional on the
+    component not being the index."""
+    cont = ctx.ix.cls(CONT)
+    coll = cont.lookup("collect_schema_components")
+    premise = coll is not None and any(isinstance(c, ast.Call) and callee_last(c) == "append" and c.args and txt(c.args[0]).endswith(".index")
+                                       for c in ast.walk(coll.node))
+    n = 0
+    for f in [x for lst in cont.methods.values() for x in lst]:
+        ex = None
+        for st in function_stmts(f):
+            if not (isinstance(st, ast.Assign) and len(st.targets) == 1 and isinstance(st.targets[0], ast.Attribute) and st.targets[0].attr == "dtype"
+                    and txt(st.value).endswith("schema.dtype")):
+                continue
+            n += 1
+            ctx.touched(f)
+            cfg = cfg_of(f.node)
+            ex = ex or Expander(f.node)
+            node = cfg.node_of(st)
+            guards = cfg.guards(node.id) if node is not None else []
+            texts = []
+            for t, pol in guards:
+                texts.append(txt(t))
+                texts += [txt(d) for d in ex.closure(t)]
+            blob = " ".join(texts)
+            guarded = ".index" in blob or "is_index" in blob or "Index" in blob or "isinstance(" in blob and "Column" in blob
+            ok = guarded or not premise
+            ctx.ob("R14", f, f"{f.short}: the dataframe-level dtype overrides the dtype of column components only", ok,
+                   "the index component is excluded" if ok else
+                   f"`{txt(st)}` is applied to every schema component, and the list ends with schema.index: DataFrameSchema({{'a': Column()}}, dtype=int, index=Index(str)) "
+                   "rejects a frame with a string index and accepts one with an integer index", f.loc(st))
+    if n < 1:
+        raise AnalysisError("pandas container backend: the dataframe-level dtype override not found")
 
 
 def r5_nulls(ctx):
@@ -731,6 +770,7 @@ def r13_label_verdict_not_by_truthiness(ctx):
 
 def run(ctx):
     r13_label_verdict_not_by_truthiness(ctx)
+    r14_frame_dtype_overrides_columns_only(ctx)
     r12_verdict_not_from_report(ctx)
     r11_verdict_from_output(ctx)
     r10_monotone_verdict(ctx)
